@@ -5,6 +5,7 @@ package service
 func init() {
 	vrtHarnesses["VerifC05Reassembly"] = VerifC05Reassembly
 	vrtHarnesses["VerifC05BadNumber"] = VerifC05BadNumber
+	vrtHarnesses["VerifC05Stray"] = VerifC05Stray
 	vrtHarnesses["VerifC05TwoTransfers"] = VerifC05TwoTransfers
 }
 
@@ -244,4 +245,60 @@ func VerifC05BadNumber() {
 	vrt_Cover("number-zero", bad.number == 0)
 	vrt_Cover("number-too-large", bad.number > uint16(n))
 	vrt_Assert(vrt_BytesEq(body, want), "reassembled body wrong after a packet with an impossible number")
+}
+
+// VerifC05Stray: a sub-package that belongs to no transfer in progress - a packet numbered k >= 2
+// before any packet 1 of its message ID has been seen, or a late duplicate of packet k after its
+// transfer has completed - is ignored: no panic, no error, nothing delivered as complete; the
+// stream goes on (a heartbeat behind it is parsed) and a following fresh transfer of the same ID
+// completes with its own bytes only.
+func VerifC05Stray() {
+	vrt_ClockFrozen()
+	n := 2 + vrt_Choose("N", 2)
+	late := vrt_Choose("lateDuplicate", 2) == 1
+	fs := c05Transfer("t", 0x0801, n, 0)
+	r := vNewReader()
+	if late {
+		completes := 0
+		for _, f := range fs {
+			msgs, err := r.read(f.bytes())
+			vrt_Assert(err == nil, "valid packet reported as an error")
+			for _, m := range msgs {
+				if m.ExtensionFields.SubcontractComplete {
+					completes++
+				}
+			}
+		}
+		vrt_Assert(completes == 1, "transfer did not complete")
+	}
+	k := 2 + vrt_Choose("strayNumber", n-1)
+	stray := &vFrame{id: 0x0801, phone: fs[0].phone, total: uint16(n), number: uint16(k), serial: fs[k-1].serial, body: fs[k-1].body}
+	var msgs []*Message
+	var err error
+	panicked := vrt_Panics(func() { msgs, err = r.read(stray.bytes()) })
+	vrt_Assert(!panicked, "a sub-package that belongs to no transfer in progress makes the parser panic")
+	vrt_Assert(err == nil, "a sub-package that belongs to no transfer in progress must be ignored, not reported as an error")
+	for _, m := range msgs {
+		vrt_Assert(!m.ExtensionFields.SubcontractComplete, "a message was delivered as complete from a stray sub-package")
+	}
+	hb := &vFrame{id: 0x0002, phone: fs[0].phone, serial: 9}
+	msgs, err = r.read(hb.bytes())
+	vrt_Assert(err == nil && len(msgs) >= 1 && msgs[0].JTMessage.Header.ID == 0x0002, "the stream did not go on after a stray sub-package")
+	// a fresh transfer of the same ID afterwards
+	gs := c05Transfer("u", 0x0801, 2, 0)
+	completes := 0
+	var body []byte
+	for _, f := range gs {
+		ms, e := r.read(f.bytes())
+		vrt_Assert(e == nil, "valid packet reported as an error")
+		for _, m := range ms {
+			if m.ExtensionFields.SubcontractComplete {
+				completes++
+				body = append([]byte{}, m.JTMessage.Body...)
+			}
+		}
+	}
+	vrt_Assert(completes == 1 && vrt_BytesEq(body, append(append([]byte{}, gs[0].body...), gs[1].body...)), "a transfer after a stray sub-package did not complete with its own bytes")
+	vrt_Cover("late-duplicate", late)
+	vrt_Cover("no-transfer-yet", !late)
 }
